@@ -1,8 +1,12 @@
 import Driver.Sexp
+import Driver.C01
+import Driver.C02
 import Driver.C04
 import Driver.C05
+import Driver.C06
 import Driver.C07
 import Driver.C08
+import Driver.C09
 import Driver.C10
 import Driver.C11
 import Driver.C12
@@ -22,10 +26,14 @@ def echo (args : List Sx) : Option Sx := some (.list args)
 /-- every `Driver/Cxx.lean` contributes a `handle : String → List Sx → Option Sx` -/
 def dispatch (op : String) (args : List Sx) : Option Sx :=
   if op == "echo" then echo args
+  else if op.startsWith "c01." then C01.handle op args
+  else if op.startsWith "c02." then C02.handle op args
   else if op.startsWith "c04." then C04.handle op args
   else if op.startsWith "c05." then C05.handle op args
+  else if op.startsWith "c06." then C06.handle op args
   else if op.startsWith "c07." then C07.handle op args
   else if op.startsWith "c08." then C08.handle op args
+  else if op.startsWith "c09." then C09.handle op args
   else if op.startsWith "c10." then C10.handle op args
   else if op.startsWith "c11." then C11.handle op args
   else if op.startsWith "c12." then C12.handle op args
